@@ -105,6 +105,16 @@ def main(path):
         ch = sorted(x for x in set(before) | set(after) if before.get(x) != after.get(x) and not x.startswith('lvl1/ws/'))
         print('changed outside the workspace:', ch)
         print('calls outside the workspace:', [e for e in fsmon.read_log(log, root) if '/sentinel/' in e[2] and '/lvl1/ws' not in e[2]][:10])
+    elif kind == 'cli-sentinel-grid':
+        common.build(('rq', 'shim'))
+        sys.path.insert(0, os.path.join(os.path.dirname(__file__), 'props'))
+        import c19
+        r = c19.grid_case(tuple(case['task']))
+        print('--- patch:\n%s--- series: %s (what -pN leaves of the name: %r, %s)' % (case['patch'], case['series'], case.get('name_after_strip'), case.get('verdict')))
+        print('--- recorded:', json.dumps(case.get('observed')))
+        print('--- observed now: %s' % sorted(r['outcomes']))
+        for c_, mode, w in r['violations']:
+            print('violation now: %s: %s' % (mode, json.dumps({k: w.get(k) for k in ('expected', 'observed')})))
     elif kind == 'cli-sentinel-links':
         common.build(('rq',))
         sys.path.insert(0, os.path.join(os.path.dirname(__file__), 'props'))
